@@ -16,7 +16,7 @@ ID = "C17"
 TECHNIQUE = "runtime monitoring: post-condition taps on mesh masking and geometry queries + metamorphic relations over generated meshes"
 LEVEL_TEXT = ("Every from_mask/from_tri_mask and geometry query executed by thousands of generated meshes (grids, Delaunay, arbitrary and "
               "non-manifold triangle lists; all three mesh classes; 2D/3D) is judged by an oracle computed from the inputs; held-on-what-was-observed")
-LEVEL_NOTE = "trusted: the numpy oracles in props/c17.py; tolerance 1e-9 relative on areas/lengths, 1e-8 on normals; triangles with area below 1e-6*scale^2 are not judged for normals"
+LEVEL_NOTE = "trusted: the numpy oracles in props/c17.py; tolerance 1e-9 relative on areas/lengths, 1e-8 on normals; vertex normals are judged where every incident face is well shaped (twice its area over its longest edge squared above 1e-3) or exactly degenerate"
 DESIGN_REF = "DESIGN.md section 7, C17"
 RULE = ("meshes: 2D grids, 2D Delaunay, arbitrary triangle lists (isolated triangles, non-manifold edges, duplicate-orientation triangles) in 2D/3D with every "
         "vertex in a triangle; vertex masks all-true / partial / orphan-creating and triangle masks, each keeping >=1 whole triangle. Non-trivial = mask drops "
